@@ -48,7 +48,13 @@ def d1_tiling(ctx):
         for nm in ("self.samples_overlap", "self.samples_taper"):
             v = env.get(nm)
             cv = v.const_value() if v is not None else None
-            ctx.check(cv is not None and cv.denominator == 1 and int(cv) % r == 0, ifi, ifi.node, f"{nm} = {v}", f"{nm} is a multiple of {r}",
+            okmul = cv is not None and cv.denominator == 1 and int(cv) % r == 0
+            if not okmul and v is not None and cv is None:
+                # k * <whole number> with r | k in every term (e.g. 48 * floordiv(.., 48))
+                okmul = all(c_.denominator == 1 and int(c_) % r == 0 for c_ in v.t.values()) and \
+                    all(all(e_ > 0 and ("floordiv(" in s_ or s_.startswith("int(")) for s_, e_ in m_) for m_ in v.t if m_ != ()) and () not in v.t or \
+                    (all(c_.denominator == 1 and int(c_) % r == 0 for c_ in v.t.values()) and all(all(e_ > 0 and ("floordiv(" in s_ or s_.startswith("int(")) for s_, e_ in m_) for m_ in v.t if m_ != ()))
+            ctx.check(okmul, ifi, ifi.node, f"{nm} = {v}", f"{nm} is a multiple of {r}",
                       f"{nm} = {v} is not a multiple of the ratio {r}", key="grid:" + nm)
     else:
         raise AnalysisError("init_params: decimation ratio is not a constant")
@@ -123,7 +129,12 @@ def d2_decimation(ctx):
               f"taper vector has {tl} points, expected 2 * samples_taper = {st_ * Poly.const(2) if st_ is not None else '?'}", key="taper-len")
     fi2, cases = np2.ind2save_cases(repo, env, facts, Poly.const(1), "ap")
     a_int = cases["interior"][0]
-    ctx.check(st_ is not None and a_int.const_value() is not None and st_.const_value() is not None and a_int.const_value() >= st_.const_value(), fi2, fi2.node,
+    ok_margin = st_ is not None and a_int.const_value() is not None and st_.const_value() is not None and a_int.const_value() >= st_.const_value()
+    if not ok_margin and st_ is not None:
+        # symbolic sizes: margin - taper is a sum of non-negative terms (positive coefficients on counts such as floordiv(min(..), k))
+        d_ = a_int - st_
+        ok_margin = all(c_ >= 0 for c_ in d_.t.values()) and all(all(("floordiv(" in s_ or "min(" in s_ or "int(" in s_) for s_, _ in m_) for m_ in d_.t if m_ != ())
+    ctx.check(ok_margin, fi2, fi2.node,
               f"discarded margin {a_int} >= tapered {st_}", "tapered edge samples are never kept", "tapered samples reach the output", key="taper-margin")
     # taper slices in extract_lfp use samples_taper on both sides
     augs = [n for n in walk_function(fi.node) if isinstance(n, ast.AugAssign) and isinstance(n.op, ast.Mult)]
